@@ -168,14 +168,15 @@ class ABC(Optimizer):
 
         """
 
-        # Calculating the fitness somatory
-        total = sum(agent.fit for agent in agents)
-
         # Defining food sources' counter
         k = 0
 
         # While counter is less than the amount of food sources
         while k < len(agents):
+            # Calculating the fitness somatory (food sources improve while onlookers are sent,
+            # so it has to be refreshed for every round)
+            total = sum(agent.fit for agent in agents)
+
             # We iterate through every agent
             for i, agent in enumerate(agents):
                 # Creates a random uniform number
